@@ -54,3 +54,9 @@ if __name__ == '__main__':
         line = line.rstrip('\n')
         if line:
             print(to_coq(parse(line)))
+
+
+def show(t):
+    """inverse of parse"""
+    kind, data, kids = t
+    return '(%s "%s"%s)' % (kind, data.replace('\\', '\\\\').replace('"', '\\"'), ''.join(' ' + show(k) for k in kids))
